@@ -320,11 +320,65 @@ def rule_bp(repo: Repo, rep: Report) -> int:
     a = assigns(db, "idx_mess")
     form(rep, "BP-UPDATE", db, a[0].value if len(a) == 1 else None, ["self.idx_mess_t.unsqueeze(0).unsqueeze(0).repeat_interleave(B, dim=0).to(self.device)", "self.idx_mess_t.unsqueeze(0).unsqueeze(0).repeat_interleave(B, dim=0)"], "message positions")
     n += 3
-    cm = repo.method(ci, "calc_code_metrics")
-    a = [s for s in ast.walk(cm.node) if isinstance(s, ast.Assign) and attr_chain(s.targets[0]) == "self.idx_mess_t"]
-    form(rep, "BP-UPDATE", cm, a[0].value if len(a) == 1 else None, ["torch.where(self.G.sum(0) == 1)[0]", "torch.where(self.G.sum(dim=0) == 1)[0]", "torch.nonzero(self.G.sum(0) == 1).view(-1)"], "message positions = weight-1 columns of G", "a column of weight 1 carries exactly one message bit")
-    n += 1
+    n += rule_message_positions(rep, repo.method(ci, "calc_code_metrics"))
     return n
+
+
+#: sample generator matrices the message-position selector is evaluated on (own arithmetic): systematic left / right,
+#: repetition, a parity column of weight one, unit columns out of row order, a tree-structured LDPC generator
+SAMPLE_GENERATORS = (
+    ("[I|P] (5,3)", [[1, 0, 0, 1, 1], [0, 1, 0, 1, 0], [0, 0, 1, 0, 1]]),
+    ("[P|I] (3,2)", [[1, 1, 0], [1, 0, 1]]),
+    ("[P|I] Hamming(7,4)", [[1, 1, 0, 1, 0, 0, 0], [0, 1, 1, 0, 1, 0, 0], [1, 1, 1, 0, 0, 1, 0], [1, 0, 1, 0, 0, 0, 1]]),
+    ("repetition (3,1)", [[1, 1, 1]]),
+    ("parity column of weight one (4,2)", [[1, 0, 1, 1], [0, 1, 0, 1]]),
+    ("unit columns out of row order (3,2)", [[0, 1, 1], [1, 0, 1]]),
+    ("tree LDPC generator (5,2)", [[1, 1, 1, 0, 1], [0, 0, 0, 1, 1]]),
+)
+
+
+def rule_message_positions(rep: Report, cm: FuncInfo) -> int:
+    """The decoder reads message bit i from position idx_mess_t[i]: the selector must return exactly k positions and
+    column idx_mess_t[i] of G must be the i-th unit vector (that codeword bit *is* message bit i).  The selector block is
+    evaluated on SAMPLE_GENERATORS with the checker's own list arithmetic."""
+    from ..constfold import Unfoldable
+    from ..frag import FragRaise, FragReturn, run_fragment
+
+    what = "message positions idx_mess_t"
+    set_parents(cm.node)
+    stores = [s for s in ast.walk(cm.node) if isinstance(s, ast.Assign) and attr_chain(s.targets[0]) == "self.idx_mess_t"]
+    if len(stores) != 1:
+        rep.undecided("MESSAGE-POS", cm, what, f"{len(stores)} assignments of self.idx_mess_t (code shape not recognised)")
+        return 1
+    blk = next((a for a in ancestors(stores[0]) if isinstance(a, ast.If)), None)
+    body = blk.body if blk is not None and unparse(blk.test) == "not self.standard" else [stores[0]]
+    bad, und = [], []
+    for name, G in SAMPLE_GENERATORS:
+        Gf = [[float(x) for x in row] for row in G]
+        try:
+            env = run_fragment(body, {}, {"self.G": Gf, "self.standard": False, "self.k": len(G), "self.n": len(G[0])})
+            idx = env["__attrs__"].get("self.idx_mess_t")
+        except FragRaise:
+            bad.append(f"{name}: the selector raises although G has a unit column for every message bit")
+            continue
+        except (Unfoldable, FragReturn) as exc:
+            und.append(f"{name}: {exc}")
+            continue
+        if not (isinstance(idx, list) and all(isinstance(i, int) and not isinstance(i, bool) for i in idx)):
+            und.append(f"{name}: result {idx!r} is not an index list")
+            continue
+        k, ncol = len(G), len(G[0])
+        if len(idx) != k:
+            bad.append(f"{name}: G={G} gives {len(idx)} positions {idx} for k={k} message bits (decoder output has the wrong length)")
+        elif not all(0 <= j < ncol and [row[j] for row in G] == [int(r == i) for r in range(k)] for i, j in enumerate(idx)):
+            bad.append(f"{name}: G={G} gives positions {idx}; column idx[i] is not the i-th unit vector, so that codeword bit is not message bit i")
+    if bad:
+        rep.violation("MESSAGE-POS", cm, what, "; ".join(bad[:3]), node=stores[0])
+    elif und:
+        rep.undecided("MESSAGE-POS", cm, what, "selector outside the evaluator: " + "; ".join(und[:2]), node=stores[0])
+    else:
+        rep.ok("MESSAGE-POS", cm, what, f"on {len(SAMPLE_GENERATORS)} sample generator matrices the selector returns k positions whose columns are the unit vectors in message order", node=stores[0])
+    return 1
 
 
 def rule_collect(rep: Report, fi: FuncInfo, loopvar: str, iter_attr: str, acc: str, item: str, reorder: bool) -> int:
